@@ -62,8 +62,10 @@ def per_e(rid, entry, quick_es, unwind, es=ES, **kw):
 def per_er(rid, entry, quick, unwind, shapes, **kw):
     rs = []
     for (e, r) in shapes:
-        rs.append(dict(kw, id='%s_e%d_r%d' % (rid, e, r), entry=entry, tiers=['quick', 'thorough'] if (e, r) in quick else ['thorough'],
-                       defs={'XV_E': e, 'XV_R': r}, unwindset=unwind(e, r)))
+        d = {'XV_E': e, 'XV_R': r}; d.update(kw.get('defs', {}))
+        k = dict(kw); k.pop('defs', None)
+        rs.append(dict(k, id='%s_e%d_r%d' % (rid, e, r), entry=entry, tiers=['quick', 'thorough'] if (e, r) in quick else ['thorough'],
+                       defs=d, unwindset=unwind(e, r)))
     return rs
 ER = [(e, r) for e in ES for r in (0, 1, 2)]
 RUNS = (
@@ -74,8 +76,14 @@ RUNS = (
           note='pop_idx, push_idx any multiples of step_size below 2^27*step_size; ~node must finish within entries_per_node iterations')
   + per_e('ctor', 'h_ctor', [1, 4], lambda e: ['ram_node_ctor.0:%d' % (e + 1)], cls='shape-complete')
   + per_e('dtor', 'h_dtor', [1, 4], lambda e: ['ram_dtor.0:5'], cls='shape-complete', note='list of 1..3 nodes plus unlisted nodes')
-  + per_e('push', 'h_push', ES, lambda e: ['ram_push.0:%d' % (e + 4), 'ram_push.1:%d' % (e + 4), 'ram_node_ctor.0:%d' % (e + 1), 'ram_node_dtor.0:%d' % (e + 2)], cls='shape-complete')
-  + per_er('pop', 'h_pop', ER, lambda e, r: ['ram_pop.0:%d' % (3 * e + 5), 'ram_pop.1:%d' % (r + 2)], ER, cls='shape-complete')
+  + per_e('push', 'h_push', ES, lambda e: ['ram_node_ctor.0:%d' % (e + 1), 'ram_node_dtor.0:%d' % (e + 2)], cls='shape-complete',
+          note='loop cut by invariant PUSHSEQ; counters unbounded, entries_per_node is the shape')
+  + per_er('pop', 'h_pop', ER, lambda e, r: ['ram_pop_seq.%d:%d' % (i, r + 2) for i in range(3)], ER, cls='shape-complete',
+           note='loop cut by invariant POPSEQ; inner retry loop unwound pop_retries+1 times')
+  + per_e('push_unwound', 'h_push', [], lambda e: ['ram_push.0:%d' % (e + 3), 'ram_push.1:%d' % (e + 3), 'ram_node_ctor.0:%d' % (e + 1), 'ram_node_dtor.0:%d' % (e + 2)],
+          es=[1, 2], cls='shape-complete', defs={'XV_UNCUT': 1}, note='cross-check of the cut-loop runs: the original loop, completely unwound')
+  + per_er('pop_unwound', 'h_pop', [], lambda e, r: ['ram_pop.%d:%d' % (i, max(3 * e + 4, r + 2)) for i in range(2)], [(1, 1), (2, 1)], cls='shape-complete',
+           defs={'XV_UNCUT': 1}, note='cross-check of the cut-loop runs: the original loop, completely unwound')
   + per_e('try_pop', 'h_try_pop', [4], lambda e: [], es=[4], cls='unbounded')
   + per_e('push_int', 'h_push_int', ES, lambda e: ['ram_node_ctor.0:%d' % (e + 1), 'ram_node_dtor.0:%d' % (e + 2)], mode='INT', cls='shape-complete')
   + per_er('pop_int', 'h_pop_int', ER, lambda e, r: ['ram_pop_cut.%d:%d' % (i, r + 2) for i in range(3)], ER, mode='INT', cls='shape-complete')
@@ -115,9 +123,13 @@ UNIT = dict(
     dict(COMMON, id='dtor', file=F, sig=Q + r'~ramalhete_queue\(\)',
          c_sig='static void ram_dtor(struct ramq* self)', must_fire={'subst:delete_node': 1, 'A_LOAD': 2}),
     dict(PUSH, id='push', c_sig='static void ram_push(struct ramq* self, value_type value)'),
+    dict(PUSH, id='push_seq', c_sig='static void ram_push_seq(struct ramq* self, value_type value)', cut_loops={0: 'PUSHSEQ'},
+         must_fire=dict(PUSH['must_fire'], cut_loop=1)),
     dict(PUSH, id='push_cut', c_sig='static void ram_push_cut(struct ramq* self, value_type value)', cut_loops={0: 'PUSH'},
          must_fire=dict(PUSH['must_fire'], cut_loop=1)),
     dict(POP, id='pop', c_sig='static optval ram_pop(struct ramq* self)'),
+    dict(POP, id='pop_seq', c_sig='static optval ram_pop_seq(struct ramq* self)', cut_loops={0: 'POPSEQ'},
+         must_fire=dict(POP['must_fire'], cut_loop=1)),
     dict(POP, id='pop_cut', c_sig='static optval ram_pop_cut(struct ramq* self)', cut_loops={0: 'POP'},
          must_fire=dict(POP['must_fire'], cut_loop=1)),
     dict(COMMON, id='try_pop', file=F, sig=r'bool ' + Q + r'try_pop\(value_type& result\)',
@@ -127,7 +139,32 @@ UNIT = dict(
   ],
   runs=idx_runs() + RUNS,
   obligations={
-    'ram.idx.injective': dict(deciding=True, text='the ticket->entry map k -> (k*step_size) mod entries_per_node used by push, pop and ~node is injective on [0, entries_per_node) and stays in bounds'),
+    'ram.idx.injective': dict(deciding=True, text='the ticket->entry map k -> (k*step_size) mod entries_per_node used by push, pop and ~node is injective on [0, entries_per_node), stays in bounds, and max_idx = step_size*entries_per_node separates the tickets of a node from the overflow tickets'),
+    'ram.node_ctor.prefilled': dict(deciding=True, text='node(item): entry of ticket 0 holds item, all other entries null, pop_idx 0, push_idx one ticket, next null'),
+    'ram.node_dtor.owned_only': dict(deciding=True, text='~node, from every reachable (pop_idx, push_idx) including both beyond max_idx: destroys exactly the values of tickets in [pop, min(push, entries_per_node)) - each once - and no value that was already handed to a consumer'),
+    'ram.ctor.empty': dict(deciding=True, text='constructor: one node, head = tail, no ticket handed out, all entries null'),
+    'ram.dtor.each_node_once': dict(deciding=True, text='destructor: every node reachable from head is deleted exactly once (its next is read before), unlisted nodes are not touched, nothing is retired'),
+    'ram.push.slot': dict(deciding=True, text='push stores the value in the entry of the first ticket >= the push ticket whose entry is free, push_idx ends one ticket behind it'),
+    'ram.push.new_node': dict(deciding=True, text='push on a full node (idx >= max_idx): appends a new node whose ticket-0 entry holds the value and swings the tail to it; a tail lagging by one is first helped forward by exactly one'),
+    'ram.push.frame': dict(deciding=True, text='push changes nothing else: other entries, pop_idx, head, other nodes; nothing deleted/retired'),
+    'ram.push.fifo': dict(deciding=True, text='every value that was in the queue is in front of the pushed value (node order, then ticket order)'),
+    'ram.push.null_rejected': dict(deciding=True, text='push(nullptr) throws invalid_argument, state unchanged, value not released'),
+    'ram.push.accepts_once': dict(deciding=True, text='C07: at return the argument object has released the value, the value is in exactly one entry and was not destroyed'),
+    'ram.push.rollback': dict(deciding=True, text='C07 [INT]: an iteration whose CAS to link the new node fails deletes that node exactly once without destroying the value; the value then ends up in exactly one entry'),
+    'ram.push.commit': dict(deciding=True, text='[INT] link CAS: on next of the guard-protected node, expected null, desired the node just allocated holding the value; tail CAS: expected = the protected node, desired = the node linked / the next read after the guard; entry CAS: entry of the ticket just drawn, expected null; push returns only after its own successful publishing CAS'),
+    'ram.pop.slot': dict(deciding=True, text='pop returns the value stored in the entry of the ticket it drew, pop_idx ends one ticket behind it'),
+    'ram.pop.fifo': dict(deciding=True, text='no value that was in the queue is in front of the returned one, all others stay in the queue'),
+    'ram.pop.empty': dict(deciding=True, text='pop returns nullopt only if no value was in the queue'),
+    'ram.pop.next_node': dict(deciding=True, text='pop on a drained node advances the head by one node along next and retires the old node exactly once'),
+    'ram.pop.invalidate': dict(deciding=True, text='a free entry whose ticket pop drew (pop_retries exhausted) is exchanged to the INVALID mark, so the producer of that ticket retries elsewhere'),
+    'ram.pop.frame': dict(deciding=True, text='pop changes nothing else: values stay in their entries, push_idx, next, tail, nothing allocated/deleted'),
+    'ram.pop.hands_over_once': dict(deciding=True, text='C07: traits::get is called exactly once per successful pop, on the returned value; never on empty'),
+    'ram.pop.commit': dict(deciding=True, text='[INT] head CAS: expected = the guard-protected node, desired = its next read after the guard, only after a ticket beyond the node; reclaim only after that CAS succeeded, once; the returned value was read/exchanged from the entry of the ticket drawn in this iteration'),
+    'ram.int.ticket': dict(deciding=True, text='[INT] one ticket per iteration, drawn from the counter of the guard-protected node by fetch_add(step_size)'),
+    'ram.try_pop.forwards': dict(deciding=True, text='try_pop returns true with the value iff pop has one, otherwise leaves result untouched'),
+    'ram.inv.preserved': dict(deciding=True, text='the node representation invariant holds again after every operation'),
+    'ram.node.live_deref': dict(deciding=True, text='every node dereferenced is allocated and not deleted'),
   },
+  loop_obligation={'PUSHSEQ': 'ram.push.slot', 'POPSEQ': 'ram.pop.slot', 'PUSH': 'ram.push.rollback', 'POP': 'ram.pop.invalidate'},
   canaries=['idx.reached', 'idx.distinct', 'idx.config_rejected'],
 )
